@@ -592,11 +592,13 @@ class Interp:
                     self.out.append(s)
                 return
         omit = False
-        if "omit-tag" in st:
+        if el.get("ns"):
+            # (char.) the tags of a tal: element never appear: its
+            # tal:omit-tag expression is not even evaluated
+            omit = True
+        elif "omit-tag" in st:
             oe = st["omit-tag"]
             omit = True if oe is None else bool(self.eval(oe))
-        if el.get("ns"):
-            omit = True
         has_content = "content" in st
         if not omit:
             self.start_tag(el, has_content)
@@ -733,6 +735,13 @@ def locator(source):
                     "&quot;" + tag + "&quot;" in site["text"]:
                 pos = site["offset"]
                 before = text[:pos]
+                # positions after character entities in the same attribute
+                # value / interpolation are shifted (known finding K12,
+                # checked under C11): not predicted here
+                start = max(before.rfind('="'), before.rfind("='"),
+                            before.rfind("${"))
+                if start >= 0 and "&" in before[start:]:
+                    raise ModelUnknown("position after an entity")
                 return (before.count("\n") + 1,
                         pos - before.rfind("\n") - 1)
         raise ModelUnknown("no site for tag " + tag)
